@@ -41,7 +41,12 @@ SPEC = {
              "consumers and >= 20000 ammo. TestHTTPSamples: rapid-generated ammo (uri / uripost / raw / http-json written one object per line, as pretty-printed objects, "
              "or as one JSON array - the six layouts equally likely; 1-8 entries with 0-5 path elements, tagged or not "
              "- a tag in three is several words, separated by single spaces, sometimes a run of spaces or a tab, as in pandora's own uri test "
-             "('some tag'): every format takes the rest of the line behind the delimiting blank, or a JSON string, as the tag) x provider streaming or "
+             "('some tag'): every format takes the rest of the line behind the delimiting blank, or a JSON string, as the tag; one entry in three "
+             "of those with a path is tagged by a text RELATED TO ITS OWN URI, as ammo made from access logs is: the tag equals the auto-tag "
+             "that the case's uri-elements derive from the entry's URI, contains it (the whole path, path?query, GET:path, a word glued "
+             "before or behind it, the auto-tag twice), lies within it (the auto-tag without its slash / its last character, the first "
+             "element) or starts like it and then differs - tags are opaque, so with no-tag-only: false the sample reads '<tag>|<auto-tag>' "
+             "whatever the two have in common ('/e0/a|/e0/a', 'GET:/e0/a/b|/e0/a'), and the tag alone otherwise) x provider streaming or "
              "with preload x bounds {passes 1-3, a limit of 1..3n with the default unlimited passes, both; at most 24 shots} x scripted "
              "target answers (any status 200-599, one in six a redirect status 301 / 302 / 303 / 307 / 308; a Location header on the answer: "
              "most redirect answers carry one - half of them a value that url.Parse rejects ('http://[::1', '/next%zz', 'http://exa mple.org/', "
@@ -66,7 +71,10 @@ SPEC = {
              "redirect_answered[_gun_*], redirect_location_{absent,empty,wellformed,malformed}, redirect_<status>_location_malformed, "
              "redirect_location_malformed_{gun_*, redirect_false_written, redirect_left_at_default, debug_log, answ_logged}, "
              "location_{malformed,wellformed}_on_other_status (once per case: such an entry was shot and answered in full), "
-             "tag_of_several_words[_<format>], tag_with_tab_or_run_of_spaces, tag_of_several_words_with_auto_tag_appended. TestGRPCCodes: every case "
+             "tag_of_several_words[_<format>], tag_with_tab_or_run_of_spaces, tag_of_several_words_with_auto_tag_appended, tag_related_to_uri, "
+             "auto_tag_appended_to_related_tag, auto_tag_appended_to_tag_{equals,contains,within,prefix}, auto_tag_appended_to_tag_that_holds_it[_gun_*] "
+             "(equals or contains), auto_tag_appended_to_tag_contains_reshot, related_tag_alone_{auto_tag_off,no_tag_only} (once per case: such "
+             "an entry was shot). TestGRPCCodes: every case "
              "enumerates all gRPC status codes 0..16 (plus generated out-of-range values) returned by a recording TargetService; the "
              "sample's proto code must equal the table in docs/eng/grpc-generator.md as transcribed into the harness. Non-trivial = a "
              "non-2xx status, a failure kind, auto-tag on, or >= 2 instances (HTTP); every gRPC case; distinct = hash of the case."),
@@ -93,6 +101,14 @@ SPEC = {
                "TestHTTPSamples/tag_of_several_words_uri": 0.035, "TestHTTPSamples/tag_of_several_words_uripost": 0.025,
                "TestHTTPSamples/tag_of_several_words_jsonline": 0.09, "TestHTTPSamples/tag_with_tab_or_run_of_spaces": 0.085,
                "TestHTTPSamples/tag_of_several_words_with_auto_tag_appended": 0.04,
+               "TestHTTPSamples/tag_related_to_uri": 0.26, "TestHTTPSamples/auto_tag_appended_to_related_tag": 0.055,
+               "TestHTTPSamples/auto_tag_appended_to_tag_that_holds_it": 0.04, "TestHTTPSamples/auto_tag_appended_to_tag_contains": 0.03,
+               "TestHTTPSamples/auto_tag_appended_to_tag_equals": 0.014, "TestHTTPSamples/auto_tag_appended_to_tag_within": 0.014,
+               "TestHTTPSamples/auto_tag_appended_to_tag_prefix": 0.012, "TestHTTPSamples/auto_tag_appended_to_tag_contains_reshot": 0.011,
+               "TestHTTPSamples/auto_tag_appended_to_tag_that_holds_it_gun_http": 0.022,
+               "TestHTTPSamples/auto_tag_appended_to_tag_that_holds_it_gun_connect": 0.009,
+               "TestHTTPSamples/auto_tag_appended_to_tag_that_holds_it_gun_http2": 0.009,
+               "TestHTTPSamples/related_tag_alone_auto_tag_off": 0.12, "TestHTTPSamples/related_tag_alone_no_tag_only": 0.05,
                "TestScenarioSamples/step_answered_with_redirect": 0.2, "TestScenarioSamples/step_answered_with_redirect_location_malformed": 0.09,
                "TestScenarioSamples/step_answered_with_redirect_location_malformed_not_rejected": 0.06,
                "TestScenarioSamples/step_answered_with_redirect_location_malformed_not_rejected_before_last_step": 0.035,
@@ -134,7 +150,7 @@ SPEC = {
                  "a chunk - is a failed exchange: status as proto code, non-zero net code), whatever the log level and the answ log setting, whichever gun (http, connect, http2) fired it, and whatever the answer's status and "
                  "Location header are - with `redirect: false` a 301/302/303/307/308 is reported as received, also when its Location is missing or no URL; tag = ammo tag / auto-tag of the first n path "
                  "elements (appended with '|' when the ammo is tagged and no-tag-only is off) / __EMPTY__ (also when auto-tag is on and the URI has no path to take elements from); ids unique across instances; "
-                 "a tag of several words is reported whole; all of it for every ammo layout (uri, uripost, raw, http/json as lines / pretty objects / one array), streamed or preloaded, also for entries shot "
+                 "a tag of several words is reported whole; a tag that equals, contains, lies within or starts like the auto-tag of its own URI is a tag like any other ('<tag>|<auto-tag>' with no-tag-only off); all of it for every ammo layout (uri, uripost, raw, http/json as lines / pretty objects / one array), streamed or preloaded, also for entries shot "
                  "again on a second and third pass (by `passes` or by a limit above the file's length) after the engine released their ammo. "
                  "gRPC: proto code equals the documented mapping for all 17 defined codes and 500 for anything else; the tag is the one written "
                  "on the entry's own line, __EMPTY__ for a line without one, also once the provider recycles its ammo objects; a "
